@@ -301,6 +301,13 @@ SPECIAL_SLOTS = [
     ('[{}, bb] = cc', 'targets[0].elts[0]', 'zz', 'TGT'), ('[*{}, bb] = cc', 'targets[0].elts[0].value', 'zz', 'TGT'), ('with cc as {}: pass', 'items[0].optional_vars', 'zz', 'TGT'), ('{} = cc', 'targets[0]', 'zz', 'TGT'),
     ('aa = {} = cc', 'targets[1]', 'zz', 'TGT'), ('del {}', 'targets[0]', 'zz', 'TGT'), ('del aa, {}', 'targets[1]', 'zz', 'TGT'), ('{} += cc', 'target', 'zz', 'TGT'), ('{}: int = cc', 'target', 'zz', 'TGT'),
     ('tt = [ii for {} in cc]', 'value.generators[0].target', 'zz', 'TGT'), ('tt = [ii for *{}, bb in cc]', 'value.generators[0].target.elts[0].value', 'zz', 'TGT'), ('with cc as (*{}, bb): pass', 'items[0].optional_vars.elts[0].value', 'zz', 'TGT'),
+    # the base of the target of an annotated assignment (python refuses `(a).b: int`: the whole target gets the parentheses)
+    ('{}[bb].cc: int', 'target.value.value', 'zz', 'ANN'), ('{}.bb[cc]: int = 1', 'target.value.value', 'zz', 'ANN'), ('{}[bb][cc]: int', 'target.value.value', 'zz', 'ANN'), ('{}.bb.cc: int', 'target.value.value', 'zz', 'ANN'),
+    ('{}[bb]: int', 'target.value', 'zz', 'ANN'), ('{}.bb: int = 1', 'target.value', 'zz', 'ANN'), ('{}.aa[bb].cc[dd]: int', 'target.value.value.value.value', 'zz', 'ANN'), ('aa[{}].cc: int', 'target.value.slice', 'zz', 'ANN'),
+    # replacement fields whose value (or its left-most operand) starts right behind the opening brace: a replacement that starts with a brace must not make it a doubled one
+    ("t = f'{{{}}}'", 'value.values[0].value', 'zz', 'FBR'), ("t = f'{{{}.yy}}'", 'value.values[0].value.value', 'zz', 'FBR'), ("t = f'{{{}[0]}}'", 'value.values[0].value.value', 'zz', 'FBR'),
+    ("t = f'{{{} + 1}}'", 'value.values[0].value.left', 'zz', 'FBR'), ("t = f'ab{{{}!r}} {{{}:>5}}'".replace('{{{}:>5}}', '{{ww:>5}}'), 'value.values[1].value', 'zz', 'FBR'), ("t = f'{{{} if cc else dd}}'", 'value.values[0].value.body', 'zz', 'FBR'),
+    ("t = f'{{ww:{{{}}}}}'", 'value.values[0].format_spec.values[0].value', 'zz', 'FBR'),
     ("t = f'{{ {}!r:>9 }}'", 'value.values[0].value', 'zz', 'FSTR'), ("t = f'{{ [aa, {}] }}'", 'value.values[0].value.elts[1]', 'zz', 'FSTR'), ("t = f'{{ aa or {} }}'", 'value.values[0].value.values[1]', 'zz', 'FSTR'),
 ]
 SPECIAL_REPL = {
@@ -312,6 +319,8 @@ SPECIAL_REPL = {
              "(f'''a\n{bb}''' + \\\n cc)", "(aa \\\n + 'a'\n'b' \\\n)"],
     'TGT': ['yy + zz', 'ff()', '1', 'yy.zz', 'yy[zz]', '(yy, zz)', '[yy, *zz]', 'yy', '(yy)', 'yy if zz else ww', 'not yy', 'lambda: 0', '(yy\n.zz)', 'yy[zz:ww]', '*yy', '(yy := zz)', 'None', '"ss"', '[yy, ff()]', '(yy, 1)', 'yy.zz.ww[0]',
             '[]', '()', '...', '-yy', 'yy, zz'],
+    'ANN': ['xx\n.yy', '(xx)', 'xx', 'ff(xx)', '(xx\n.yy)', 'xx[0]', '(xx[0])', 'xx.yy', '(xx\n [0])', '"ss"', 'xx \\\n.yy'],
+    'FBR': ['{1: 2}', '{1, 2}', '{kk: vv for kk in xx}', '{*aa}', 'xx', '[1]', '{}', '({1: 2})', '{aa for aa in xx}', '{1: 2}\n'.strip()],
     'GLUE': ['(pp +\n qq)', 'gg(pp,\n qq).rr', '(pp + \\\n qq)', 'pp', '(pp)', '[pp,\n qq]', '(pp\n .qq)', 'pp +\\\n qq', '(pp if qq else\n rr)', '"s"\\\n "t"'],
     'FSTR': ['(aa if bb else lambda: xx)', '(cc, lambda: xx)', '(aa if bb else\n lambda: xx)', '(cc,\n lambda: xx)', 'lambda: xx', 'aa if bb else lambda: xx', 'cc, lambda: xx', '(lambda: xx)', 'ff(lambda: xx)', '[lambda: xx]', 'aa if bb else (lambda: xx)', 'xx := 1', '(xx := 1)', 'not lambda: xx' if False else 'xx if yy else zz',
              'lambda aa=1: aa', 'cc if dd else ee if ff else lambda: xx', '{kk: lambda: xx}', 'xx or yy', 'yield xx' if False else 'xx[lambda: yy]'],
